@@ -15,5 +15,8 @@ else
 fi
 for T in $TIERS; do
   out=$(tools/mutant.sh "$SD/patch.diff" "$PROP" "$T" 2>&1)
-  echo "$out" | grep -E "^VIOLATION|^MUTANT|^KNOWN-FINDING|INFRA" | head -8
+  echo "$out" | grep -E "^KNOWN-FINDING" | cut -c1-160 | head -3
+  echo "$out" | grep -E "^VIOLATION" | head -3
+  echo "$out" | grep -E "INFRA|Traceback" -A3 | cut -c1-600 | head -8
+  echo "$out" | grep -E "^MUTANT"
 done
